@@ -311,6 +311,33 @@ def converter_scoping(repo: Repo, SK: StrKind, res: CheckResult) -> None:
                 if isinstance(v, ast.FormattedValue) and i > 0 and isinstance(node.values[i - 1], ast.Constant) \
                         and str(node.values[i - 1].value).rstrip(" ").endswith("def"):
                     def_hole = v
+            # (b') the same namespace receives constants under names chosen by the user (a linked function's __name__):
+            # whatever the def name is, it must be reserved, otherwise `def <name>` rebinds such a constant to the closure
+            user_named_constants = []
+            cls_ = m.enclosing_class(node)
+            if def_hole is not None and cls_ is not None:
+                for mname2, f2 in m.classes[cls_.name].methods.items() if cls_.name in m.classes else []:
+                    for c in ast.walk(f2):
+                        if isinstance(c, ast.Call) and isinstance(c.func, ast.Attribute) and c.func.attr in (
+                                "register_mangled", "_register_mangled") and c.args:
+                            a0 = c.args[0] if c.func.attr == "register_mangled" else (c.args[1] if len(c.args) > 1 else c.args[0])
+                            if isinstance(a0, ast.Attribute) and a0.attr == "__name__":
+                                user_named_constants.append(norm(c)[:60])
+            if def_hole is not None and fn is not None and user_named_constants \
+                    and not _unprefixed_user_name(repo, SK, m, fn, def_hole.value, fctx):
+                nm = norm(def_hole.value)
+                reserved = False
+                for c in ast.walk(fn):
+                    if isinstance(c, ast.Call) and "Namespace" in norm(c.func):
+                        occ = next((k.value for k in c.keywords if k.arg == "occupied"), None)
+                        if occ is not None and any(isinstance(x, ast.Name) and x.id == nm for x in ast.walk(occ)):
+                            reserved = True
+                res.evaluated(f"scoping:user-named-constants:{m.rel}:{m.qualname(node)}", True)
+                if not reserved:
+                    res.add(Finding("C19", "SCOPE.function-name-not-reserved", m.rel, m.qualname(node), f"def {{{nm}}} with user-named constants",
+                                    f"constants are registered in this namespace under names chosen by the user ({user_named_constants[0]}) "
+                                    f"but the name of the generated function (`{nm}`) is not reserved: a linked function whose "
+                                    "__name__ equals the closure name is rebound by `def` and the closure calls itself", node.lineno))
             if def_hole is not None and fn is not None and _unprefixed_user_name(repo, SK, m, fn, def_hole.value, fctx):
                 nm = norm(def_hole.value)
                 reserved = False
